@@ -24,14 +24,16 @@ from common import VERIF, NPROC, Result, KnownFindings, build, mix_seed, save_re
 
 
 class Outcome(object):
-    def __init__(self, ok=True, why="", fp=None, nontrivial=False, classes=(), sample=None, known=(), inconclusive=False, detail=None):
+    def __init__(self, ok=True, why="", fp=None, nontrivial=False, classes=(), sample=None, known=(), inconclusive=False, detail=None,
+                 n_eval=1, fps=None):
+        self.n_eval, self.fps = n_eval, fps
         self.ok, self.why, self.fp, self.nontrivial = ok, why, fp, nontrivial
         self.classes, self.sample, self.known, self.inconclusive = list(classes), sample, list(known), inconclusive
         self.detail = detail
 
     def todict(self):
         return {"ok": self.ok, "why": self.why, "fp": self.fp, "nt": self.nontrivial, "cl": self.classes,
-                "sample": self.sample, "known": self.known, "inc": self.inconclusive}
+                "sample": self.sample, "known": self.known, "inc": self.inconclusive, "n": self.n_eval, "fps": self.fps}
 
 
 class Ctx(object):
@@ -89,7 +91,14 @@ def worker_main(modname, tier, seed, widx, ncases, outpath, paths):
         out.write(json.dumps(rec) + "\n")
         return oc
 
-    fixed = getattr(mod, "fixed_cases", lambda t: [])(tier) if widx == 0 else []
+    fixed = []
+    if widx == 0:
+        fixed = list(getattr(mod, "fixed_cases", lambda t: [])(tier))
+        rd = os.path.join(VERIF, "regress", mod.PID)
+        if os.path.isdir(rd):
+            for fn in sorted(os.listdir(rd)):
+                if fn.endswith(".json"):
+                    fixed.append(json.load(open(os.path.join(rd, fn)))["case"])
     for case in fixed:
         oc = execute(case)
         if not oc.ok:
@@ -185,6 +194,12 @@ def main(modname, tier, seed, replay=None, extra_result_hook=None):
                         res.inconclusive += 1
                     res.add_case(fingerprint=rec.get("fp"), nontrivial=bool(rec.get("nt")) and rec.get("ok", True),
                                  classes=rec.get("cl", ()), sample=rec.get("sample") if rec.get("nt") else None)
+                    if rec.get("n", 1) > 1:
+                        res.evaluations += rec["n"] - 1
+                    if rec.get("fps"):
+                        res.fingerprints.discard(rec.get("fp"))
+                        res.fingerprints.update(rec["fps"])
+                        res.nontrivial += len(rec["fps"]) - 1
                     for k in rec.get("known", ()):
                         res.known_hits[k] = res.known_hits.get(k, 0) + 1
         if p.returncode not in (0, 1):
